@@ -309,6 +309,14 @@ def r5_priority_order(ctx):
     ctx.check(bool(it) and not bad, R, b.key + "|forward-scan", "sources are iterated forward with iter().enumerate() (%s)" % chain,
               "the source scan order is altered (%s)" % bad, b.loc(0))
     nexts = [bi for bi, t in b.calls() if call_matches(t, ("Iterator::next",))]
+    # completion happens only while walking the sources in order, and only here
+    callers = sorted({k.split("::{closure")[0] for k, _ in F.callers_of(EXEC + "::complete_select")})
+    ctx.check(callers == [b.key], R, "callers(complete_select)", "a select is completed only from the ordered source walk (process_select_sources)",
+              "complete_select is also called from %s: a select can complete without re-checking the sources written earlier" % [c for c in callers if c != b.key])
+    for i, (bi, t) in enumerate(b.calls_to("Executor::complete_select")):
+        inside = any(b.dominates(n, bi) for n in nexts)
+        ctx.check(inside, R, "%s|complete#%d|inside-walk" % (b.key, i), "the completion is reached through the source loop (earlier-written sources were examined first)",
+                  "complete_select is reachable without passing the source loop: a later-written source can win although an earlier one is ready", b.loc(bi))
     for i, (bi, t) in enumerate(b.calls_to("Executor::complete_select")):
         # after completing, the loop is not re-entered
         again = any(b.reaches(x, n) for x in b.succ[bi] for n in nexts)
@@ -429,8 +437,23 @@ def r6_timeouts(ctx):
               "start_time is also assigned in %s" % sorted(writers - {e.key}))
 
 
+def r7_receive_tables(ctx):
+    """which concrete values a receive source accepts comes from the parameter tables: they are recomputed, by pure functions of the FULL merged
+    program, at every program update (shared with R-C08-2)"""
+    from rules import c08
+    before = len(ctx.obs)
+    c08.r2_tables_describe_whole_program(ctx)
+    for o in ctx.obs[before:]:
+        o["rule"] = "R-C05-7"
+    if "R-C08-2" in ctx.rules:
+        ctx.rules["R-C05-7"] = ctx.rules.pop("R-C08-2")
+    for f in ctx.floors:
+        if f["rule"] == "R-C08-2":
+            f["rule"] = "R-C05-7"
+
+
 def run(ctx):
-    ctx.run_rules([r1_untaken_messages_stay, r2_verdict_only, r3_error_propagation, r4_latest_answer_replaces, r4b_answers_not_dropped, r5_priority_order, r6_timeouts])
+    ctx.run_rules([r1_untaken_messages_stay, r2_verdict_only, r3_error_propagation, r4_latest_answer_replaces, r4b_answers_not_dropped, r5_priority_order, r6_timeouts, r7_receive_tables])
     return (
         "Decides structural clauses of the select statement: who may remove from a mailbox and under which verdict (with the removed index tied "
         "to the examined/held message), the filter result reaching only the nil test, the awaited process's own error being propagated, "
